@@ -357,10 +357,19 @@ static void judge(Ctx& ctx, const Case& c, bool from_replay) {
 static gen::GpCounters g_gc;
 
 struct Grid {           // decimal grid of the inputs: x = n / 10^k (k may be negative), n integer
-  int k = 0; Sc s; long long nudged = 0;
+  int k = 0; Sc s; long long nudged = 0, tie_neighbours = 0;
   double val(int64_t n) const { return k >= 0 ? (double)n / own_pow10(k) : (double)n * own_pow10(-k); }
   // the double nearest to the decimal n/10^k; n is moved up until the property's rounding premise holds
+  Rng* rng = nullptr;   // when set: now and then hand out a 1-ulp neighbour of a rounding tie (power-of-two scales only)
   double coord(int64_t n) {
+    if (rng && s.pow2 && rng->chance(0.03)) {
+      // x*scale = (k + 0.5) -/+ 1 ulp exactly: "rounded to nearest" is unambiguous there, but a rounding routine that adds 0.5
+      // and truncates (or otherwise mishandles the neighbourhood of a tie) gets it wrong; k = 0 and -1 are the classic cases
+      int64_t kk = rng->chance(0.5) ? rng->range(-2, 1) : rng->range(-200000, 200000);
+      double t = (double)kk + 0.5, t2 = std::nextafter(t, rng->coin() ? 1e300 : -1e300);
+      double x = std::ldexp(t2, -s.e); int64_t r2; bool f2;
+      if (round_coord(s, x, r2, f2) == RC_OK) { ++tie_neighbours; return x; }
+    }
     for (int t = 0; t < 40; ++t) {
       double x = val(n); int64_t r; bool f;
       int st = round_coord(s, x, r, f);
@@ -438,6 +447,7 @@ static void finish(Ctx& ctx, Case& c, Grid& g, int ms) {
   ctx.count("gen_decimal_digits_" + std::to_string(g.k));
   ctx.count("gen_scaled_magnitude_2^" + std::to_string(ms));
   ctx.count("gen_coordinates_nudged_off_a_tie", g.nudged);
+  ctx.count("gen_coordinates_one_ulp_from_a_tie", g.tie_neighbours);
   judge(ctx, c, false);
 }
 
@@ -455,7 +465,7 @@ void vf_case(Ctx& ctx, uint64_t i) {
   int ms = kScaledMag[r.irange(0, 8)];
   if (!pow2 && ms > 46 && r.coin()) ms = 46;
   Case c; c.seti("api", api);
-  Grid g; int64_t Mn = 0;
+  Grid g; int64_t Mn = 0; g.rng = &ctx.rng;
   bool okg;
   if (!pow2 && ms > 46) {
     // 10^p-scaled APIs near 2^52: the double product x*10^p has an absolute error of up to 1/2, so only inputs whose
